@@ -413,7 +413,7 @@ pub fn run(ctx: &mut Ctx) {
         let seed = ctx.seed;
         ctx.run(&id, "query-strings", json!({"kind": "unsupported"}), move |out, op| run_strings("unsupported".into(), seed, "unsupported", 0, out, op));
     }
-    let rounds = ctx.pick(48u64, 3000);
+    let rounds = ctx.pick(144u64, 3000);
     let per = ctx.pick(200usize, 300);
     for i in 0..rounds {
         if i >= 48 && ctx.out_of_time() {
